@@ -125,6 +125,14 @@ def run(ctx):
         if o["rule"] in ("R04.1", "R04.2"):
             ctx._add(o["status"], "R02.6", o["key"].split("|", 1)[1], o["desc"], o["where"], o["detail"])
 
+    # ---- R02.7 a completed upsert's value is what readers see: the request reaches the entry unchanged (C08 R08.6/R08.9)
+    import c08
+    sub = type(ctx)(ctx.prop, ctx.facts, ctx.tier, ctx.config)
+    c08.run(sub)
+    for o in sub.obligations:
+        if o["rule"] in ("R08.9",) or (o["rule"] == "R08.6" and "update-gets-request-fields" in o["key"]) or (o["rule"] == "R08.1"):
+            ctx._add(o["status"], "R02.7", o["key"].split("|", 1)[1], o["desc"], o["where"], o["detail"])
+
     # ---- R02.4 no mutable leak -------------------------------------------------------------------------
     leaks = [n for n, f in F.fns.items() if f.rec.get("reachable") and ("RefMut<" in f.rec.get("ret", "") or "&mut " in f.rec.get("ret", "") and L.sv.split("::")[-1] in f.rec.get("ret", ""))]
     ctx.check(not leaks, "R02.4", "no-public-mutable-access", "no public function returns a mutable reference or RefMut into the store", detail=str(leaks))
